@@ -21,6 +21,9 @@ type cfgDeco struct {
 func (d *cfgDeco) Get(ctx context.Context, id configapi.ConfigurationID) (*configapi.Configuration, error) {
 	t := noteEntry(string(id))
 	d.inc.gate("cfg.Get", false)
+	if err := d.inc.fault("cfg.Get"); err != nil {
+		return nil, err
+	}
 	c, err := d.inner.Get(ctx, id)
 	if err == nil && t != nil {
 		t.lastCfg[string(c.TargetID)] = cloneCfg(c)
@@ -31,7 +34,10 @@ func (d *cfgDeco) Get(ctx context.Context, id configapi.ConfigurationID) (*confi
 func (d *cfgDeco) write(kind string, c *configapi.Configuration, f func() error) error {
 	d.inc.gate(kind, true)
 	snap := cloneCfg(c)
-	err := f()
+	err := d.inc.fault(kind)
+	if err == nil {
+		err = f()
+	}
 	ev := &Event{Kind: kind, Target: string(c.TargetID), OK: err == nil, Err: errStr(err), Cfg: snap, Inc: d.inc.N}
 	if err == nil {
 		snap.Version = c.Version
@@ -80,12 +86,18 @@ type propDeco struct {
 func (d *propDeco) Get(ctx context.Context, id configapi.ProposalID) (*configapi.Proposal, error) {
 	noteEntry(string(id))
 	d.inc.gate("prop.Get", false)
+	if err := d.inc.fault("prop.Get"); err != nil {
+		return nil, err
+	}
 	return d.inner.Get(ctx, id)
 }
 func (d *propDeco) write(kind string, p *configapi.Proposal, f func() error) error {
 	d.inc.gate(kind, true)
 	snap := cloneProp(p)
-	err := f()
+	err := d.inc.fault(kind)
+	if err == nil {
+		err = f()
+	}
 	if err == nil {
 		snap.Version = p.Version
 	}
@@ -138,13 +150,19 @@ func (d *txDeco) Get(ctx context.Context, id configapi.TransactionID) (*configap
 func (d *txDeco) GetByIndex(ctx context.Context, index configapi.Index) (*configapi.Transaction, error) {
 	noteEntry(fmt.Sprint(uint64(index)))
 	d.inc.gate("tx.GetByIndex", false)
+	if err := d.inc.fault("tx.GetByIndex"); err != nil {
+		return nil, err
+	}
 	return d.inner.GetByIndex(ctx, index)
 }
 func (d *txDeco) write(kind string, t *configapi.Transaction, f func() error) error {
 	d.inc.gate(kind, true)
 	snap := cloneTx(t)
 	start := d.inc.w.nextSeq()
-	err := f()
+	err := d.inc.fault(kind)
+	if err == nil {
+		err = f()
+	}
 	if err == nil {
 		snap.Version = t.Version
 		snap.Index = t.Index
